@@ -475,3 +475,74 @@ def token_facts(text):
             if t.string in (',', 'if', 'for', '->', ':', '=', ';', 'as', 'lambda', 'else'):
                 st.add(t.string)
     return {'lastTok': last[:8], 'commas0': commas, 'struct0': '|'.join(sorted(st)), 'trailComment': tc}
+
+
+# ----------------------------------------------------------------------------------------------------------------------
+# boundary family: wrapped fragments with multi-byte text on their first / last line
+#
+# Every fix-up a fragment parser makes after parsing a wrapped text (recomputing the span of an undelimited sequence,
+# looking for a trailing separator / closing parenthesis / semicolon, un-indenting) works on the FIRST or LAST line of
+# the fragment and has to convert between character columns and UTF-8 byte offsets there.  The family is the product
+#   head (why the text cannot be parsed bare) x body (where the multi-byte element sits) x tail (what follows the last
+#   element) x parenthesised-or-not, for every mode, with elements of 2-, 3- and 4-byte characters.
+
+BND_HEADS = [('bare', ''), ('lead-space', '  '), ('lead-nl', '\n'), ('lead-comment', '# ü日\n'), ('lead-cont', ' \\\n')]
+
+# mode group -> (modes, neutral elements, multi-byte elements, separator, may be parenthesised)
+BND_GROUPS = [
+    (('expr', 'expr_arglike', 'Tuple_elt', 'all', 'expr_all', 'expr_slice', 'Tuple', '_arglikes', '_arglike', 'List',
+      'Starred'),
+     ['a', 'f(b)'], ["'é'", "'日本'", 'xé\U0001d4b3', "f('é')", '-é', "*'日'", "'é' 'ü'"], ',', True),
+    (('pattern', 'MatchSequence', 'all', 'MatchStar'),
+     ['a', '1'], ["'é'", "'日本'", 'xé', "Cé('\U0001d4b3')", "['é']", '*é', "'é' | 'ü'"], ',', True),
+    (('_withitems', 'withitem', 'all'), ['a'], ["fé('é') as xé", "'é'", 'é\U0001d4b3', "f('日本')"], ',', True),
+    (('_type_params', 'type_param'), ['T'], ['Té', '*Tsé', "Té: '日本'", '**Pé'], ',', False),
+    (('_Import_names', '_aliases', 'Import_name', 'alias'), ['a'], ['aé.bé', 'aé as bé', '日本'], ',', False),
+    (('_ImportFrom_names', '_aliases', 'ImportFrom_name', 'alias'), ['a'], ['aé', 'aé as bé', '日本 as é'], ',', False),
+    (('_Assign_targets',), ['a ='], ['bé =', "xé['日本'] =", 'é, ü ='], '', False),
+    (('_decorator_list',), ['@a'], ["@dé('é')", '@é', "@f('日本').é"], '', False),
+    (('_comprehension_ifs',), ['if a'], ["if 'é'", 'if é', "if f('日本')"], '', True),
+    (('_comprehensions', 'comprehension', 'all'), ['for a in b'], ["for é in 'é'", "for é in ü if '日本'"], '', False),
+    (('arguments', 'arguments_lambda', 'arg'), ['a'], ["bé='é'", '*é', "bé: '日本' = 'é'", 'é'], ',', False),
+    (('_pattern_attrlikes',), ['a'], ["ké='é'", "'日本'", 'é'], ',', False),
+    (('keyword', '_arglikes', '_arglike'), ['k=v'], ["ké='é'", "**'日本'", "ké=f('é')"], ',', False),
+    (('_ExceptHandlers', 'ExceptHandler', 'all'), ['except A: pass'],
+     ["except (Eé, '日本'): xé = 'é'", "except Eé as é: 'é'"], '', False),
+    (('_match_cases', 'match_case', 'all'), ['case 1: pass'], ["case 'é', é: xé = '日本'", "case é if 'é': 'é'"], '', False),
+    (('stmt', 'exec', 'single', 'strict', 'Expr', 'Assign'), ['a = 1'], ["é = 'é', '日本'", "'é', é", "x = 'é'; é"], ';', False),
+    (('operator',), ['+'], ['+', '**'], '', False),
+]
+
+
+def boundary_cases(rng, quick, valid_modes):
+    out = []
+    for modes, neutral, mbs, sep, paren in BND_GROUPS:
+        tails = [('none', ''), ('sep', sep), ('sp-sep', ' ' + sep), ('sep-comment-mb', sep + '  # 日本é'),
+                 ('comment', '  # c'), ('sep-nl', sep + '\n'), ('nl-sep', '\n' + sep)]
+        if not sep:
+            tails = [('none', ''), ('comment-mb', '  # 日本é'), ('nl', '\n'), ('cont', ' \\\n')]
+        glue = sep if sep else ''
+        bodies = [('last-line', lambda e1, e2: e1 + glue + '\n' + e2),
+                  ('same-line', lambda e1, e2: e1 + glue + ' ' + e2),
+                  ('alone', lambda e1, e2: e2),
+                  ('first-line', lambda e1, e2: e2 + glue + '\n' + e1),
+                  ('three', lambda e1, e2: e2 + glue + '\n' + e1 + glue + '\n' + e2)]
+        for mi, mode in enumerate(modes):
+            if mode not in valid_modes:
+                continue
+            # quick tier: the full product for the modes that recompute spans themselves, a 20 % sample elsewhere
+            keep = 1.0 if not quick or (modes[0] in ('expr', 'pattern') and mi < (4 if modes[0] == 'expr' else 2)) else 0.2
+            k = rng.randrange(len(mbs))
+            for hn, h in BND_HEADS:
+                for bn, b in bodies:
+                    for tn, t in tails:
+                        for par in ((False, True) if paren else (False,)):
+                            elems = mbs if not quick else [mbs[k % len(mbs)]]
+                            k += 1
+                            for e2 in elems:
+                                e = '(' + e2 + ')' if par and not e2.startswith('*') else e2
+                                text = h + b(neutral[k % len(neutral)], e) + t
+                                if keep < 1.0 and rng.random() >= keep:
+                                    continue
+                                out.append((mode, text, f'bnd:{hn}:{bn}:{tn}' + (':par' if par else '')))
+    return out
